@@ -23,6 +23,7 @@ import (
 	"go/token"
 	"os"
 	"path/filepath"
+	"regexp"
 	"sort"
 	"strings"
 )
@@ -186,6 +187,25 @@ func (c *fileCtx) passA() {
 					eds = append(eds, edit{c.off(b.Fun.Pos()), c.off(b.Fun.End()), repl})
 					c.stats["dial"]++
 				}
+				// timers: real timers fire late, never exactly on time; the bubble's
+				// are exact. The duration goes through verifTimerSkew (identity
+				// outside the simulation, + a small tape-chosen latency inside).
+				skew := false
+				if len(b.Args) == 1 {
+					switch {
+					case isSel(b.Fun, "time", "NewTimer"), isSel(b.Fun, "time", "After"), isSel(b.Fun, "time", "Sleep"):
+						skew = true
+					default:
+						if se, ok := b.Fun.(*ast.SelectorExpr); ok && se.Sel.Name == "Reset" && strings.Contains(strings.ToLower(c.text(se.X)), "timer") {
+							skew = true
+						}
+					}
+				}
+				if skew {
+					a := b.Args[0]
+					eds = append(eds, edit{c.off(a.Pos()), c.off(a.Pos()), "verifTimerSkew("}, edit{c.off(a.End()), c.off(a.End()), ")"})
+					c.stats["timer"]++
+				}
 			}
 			return true
 		})
@@ -322,11 +342,37 @@ func (c *fileCtx) passSelect() bool {
 			counter[curFn]++
 			site := fmt.Sprintf("%s:%s#sel%d", c.name, curFn, counter[curFn])
 			var clauses []string
+			labels := map[string]bool{}
 			for _, cl := range s.Body.List {
 				clauses = append(clauses, c.text(cl))
+				ast.Inspect(cl, func(m ast.Node) bool {
+					if ls, ok := m.(*ast.LabeledStmt); ok {
+						labels[ls.Label.Name] = true
+					}
+					return true
+				})
 			}
 			nc := len(clauses)
-			orig := "select {\n" + strings.Join(clauses, "\n") + "\n}"
+			copyNo := 0
+			// every copy of a clause body needs its own label names
+			relabel := func(txt string) string {
+				if len(labels) == 0 {
+					return txt
+				}
+				copyNo++
+				for l := range labels {
+					re := regexp.MustCompile(`\b` + regexp.QuoteMeta(l) + `\b`)
+					txt = re.ReplaceAllString(txt, fmt.Sprintf("%s_v%d", l, copyNo))
+				}
+				return txt
+			}
+			origf := func() string {
+				var cs []string
+				for _, cl := range clauses {
+					cs = append(cs, relabel(cl))
+				}
+				return "select {\n" + strings.Join(cs, "\n") + "\n}"
+			}
 			var sb strings.Builder
 			fmt.Fprintf(&sb, "switch verifPick(%q, %d) {\n", site, nc)
 			for r := 0; r < nc; r++ {
@@ -338,10 +384,10 @@ func (c *fileCtx) passSelect() bool {
 				// nested priority: clauses r, r+1, ...
 				depth := 0
 				for j := 0; j < nc; j++ {
-					fmt.Fprintf(&sb, "select {\n%s\ndefault:\n", clauses[(r+j)%nc])
+					fmt.Fprintf(&sb, "select {\n%s\ndefault:\n", relabel(clauses[(r+j)%nc]))
 					depth++
 				}
-				sb.WriteString(orig + "\n")
+				sb.WriteString(origf() + "\n")
 				for j := 0; j < depth; j++ {
 					sb.WriteString("}\n")
 				}
